@@ -102,16 +102,19 @@ impl SolOut for Recorder {
         for (k, r) in &self.script {
             if *k == idx {
                 match r {
-                    Reply::Interrupt => return ControlFlag::Interrupt,
+                    Reply::Interrupt => { ivp::verif_hooks::trace("cb", &[1.0]); return ControlFlag::Interrupt; }
                     Reply::Modify(c) => {
                         for v in y.iter_mut() {
                             *v *= *c;
                         }
+                        ivp::verif_hooks::trace("cb", &[2.0]);
                         return ControlFlag::ModifiedSolution;
                     }
                 }
             }
         }
+        // (the control trace of an instrumented solver records what the callback answered; a no-op otherwise)
+        ivp::verif_hooks::trace("cb", &[0.0]);
         ControlFlag::Continue
     }
 }
